@@ -21,7 +21,7 @@ ASSUMPTIONS = [
 _L = "AutoCarver/discretizers/utils/qualitative_discretizers.py"
 ANCHORS = [(_L, "ChainedDiscretizer.__init__"), (_L, "ChainedDiscretizer._prepare_data"), (_L, "ChainedDiscretizer.fit")]
 DECIDING_ANCHORS = [(_L, "ChainedDiscretizer.fit")]
-N = {"quick": 600, "thorough": 40000}
+N = {"quick": 1500, "thorough": 40000}
 REQUIRED_COUNTERS = {"quick": {"tag:completed": 350, "tag:unknown_raise_ok": 30, "tag:unknown_drop": 40, "leaves_merged": 500, "leaves_kept": 500, "groups_merged_further_up": 50},
                      "thorough": {"tag:completed": 7000, "tag:unknown_raise_ok": 600, "tag:unknown_drop": 800, "leaves_merged": 10000, "leaves_kept": 10000, "groups_merged_further_up": 1000}}
 
